@@ -1418,7 +1418,7 @@ fn nontrivial_m(m: &Model) -> bool {
 }
 
 /// serializer options inside this property's domain: indentation 2/3/4/8, quote_all, yaml_12,
-/// prefer_block_scalars, tagged_enums and custom anchor names vary; compact_list_indent,
+/// prefer_block_scalars, tagged_enums, compact_list_indent and custom anchor names vary;
 /// empty_as_braces = false and indent_step = 1 are left to C13 (they break documents without any
 /// anchors), and the folding thresholds stay at their defaults
 fn c14_opts(bits: u32) -> SerOpts {
@@ -1426,7 +1426,6 @@ fn c14_opts(bits: u32) -> SerOpts {
     if o.indent == 1 {
         o.indent = 3;
     }
-    o.compact = false;
     o.braces = true;
     o.wrap = 80;
     o.min_fold = 32;
